@@ -631,6 +631,32 @@ impl Kanata {
         for btn in held_btns {
             self.kbd_out.release_btn(btn)?;
         }
+        // Same for a key code pressed by a held arbitrary-code action.
+        let held_codes: Vec<u16> = self
+            .layout
+            .b()
+            .states
+            .iter()
+            .filter_map(|s| match s {
+                State::Custom { value, .. } => Some(*value),
+                _ => None,
+            })
+            .flat_map(|acts| acts.iter())
+            .filter_map(|a| match a {
+                CustomAction::SendArbitraryCode(code) => Some(*code),
+                _ => None,
+            })
+            .collect();
+        for code in held_codes {
+            #[cfg(all(not(feature = "simulated_output"), target_os = "windows"))]
+            {
+                self.kbd_out.write_code_raw(code, KeyValue::Release)?;
+            }
+            #[cfg(any(feature = "simulated_output", not(target_os = "windows")))]
+            {
+                self.kbd_out.write_code(code as u32, KeyValue::Release)?;
+            }
+        }
         self.layout = cfg.layout;
         // Effects of held custom actions are ended by their release handlers, which ran off the
         // states of the old layout. Those states are gone now, so end the effects here.
